@@ -87,6 +87,22 @@ pub assume_specification[ i64::saturating_sub ](a: i64, b: i64) -> (r: i64)
         r as int == (if (a as int) - (b as int) > (i64::MAX as int) { i64::MAX as int } else if (a as int) - (b as int) < (i64::MIN as int) { i64::MIN as int } else { (a as int) - (b as int) }),
 ;
 
+/// Stand-in for `std::io::Error::new(kind, msg)` (T2: its generic bound mentions `dyn Error + Send + Sync`,
+/// which Verus cannot express): an error of that kind that carries no OS error number.
+#[verifier::external_body]
+pub fn io_error_new(kind: ::std::io::ErrorKind, msg: &str) -> (r: ::std::io::Error)
+    ensures
+        err_kind(r) == kind,
+        err_errno(r).is_none(),
+{
+    ::std::io::Error::new(kind, msg)
+}
+
+pub assume_specification<T: PartialEq>[ <[T]>::contains ](s: &[T], x: &T) -> (r: bool)
+    ensures
+        r == s@.contains(*x),
+;
+
 // ---- Path / PathBuf / Cow ----------------------------------------------------------------------
 pub assume_specification[ <PathBuf as ::std::ops::Deref>::deref ](p: &PathBuf) -> (r: &Path)
     ensures
@@ -552,6 +568,13 @@ pub mod std {
         #[verifier::external_body]
         pub struct File {
             x: u8,
+        }
+
+        impl ::std::fmt::Debug for File {
+            #[verifier::external_body]
+            fn fmt(&self, f: &mut ::std::fmt::Formatter<'_>) -> ::std::fmt::Result {
+                Ok(())
+            }
         }
 
         impl File {
